@@ -55,6 +55,66 @@ pub struct Case {
     pub plan: Vec<Probe>,
     /// 0 = module iterator, 1 = function modifier
     pub api: u8,
+    /// a void block / loop of main (opener index) that is additionally REMOVED through an empty block
+    /// alternate; the plan's probes all sit outside it. The instrumented module must then behave like
+    /// the program without that construct, probed at the corresponding places (C21: "all other
+    /// instructions and their instrumentation are unaffected").
+    #[serde(default)]
+    pub removed: Option<usize>,
+}
+
+/// the program's module with the instructions [at ..= end] of main cut out (byte surgery on the body,
+/// everything else copied verbatim; wirm is not involved)
+fn cut_main(bytes: &[u8], at: usize, end: usize) -> Result<Vec<u8>, String> {
+    let mut out = wasm_encoder::Module::new();
+    let mut code = wasm_encoder::CodeSection::new();
+    let mut in_code = false;
+    let mut idx = 0usize;
+    let mut left = 0u32;
+    for p in wasmparser::Parser::new(0).parse_all(bytes) {
+        let p = p.map_err(|e| e.to_string())?;
+        match &p {
+            wasmparser::Payload::CodeSectionStart { count, .. } => {
+                in_code = true;
+                left = *count;
+                continue;
+            }
+            wasmparser::Payload::CodeSectionEntry(body) => {
+                let raw = &bytes[body.range()];
+                if idx == 0 {
+                    let base = body.range().start;
+                    let mut r = body.get_operators_reader().map_err(|e| e.to_string())?;
+                    let mut offs = vec![];
+                    while !r.eof() {
+                        let (_, o) = r.read_with_offset().map_err(|e| e.to_string())?;
+                        offs.push(o - base);
+                    }
+                    offs.push(raw.len());
+                    if end + 1 >= offs.len() || at > end {
+                        return Err("cut out of range".into());
+                    }
+                    let mut nb = raw[..offs[at]].to_vec();
+                    nb.extend_from_slice(&raw[offs[end + 1]..]);
+                    code.raw(&nb);
+                } else {
+                    code.raw(raw);
+                }
+                idx += 1;
+                left -= 1;
+                if left == 0 {
+                    out.section(&code);
+                    in_code = false;
+                }
+                continue;
+            }
+            _ => {}
+        }
+        let _ = in_code;
+        if let Some((id, range)) = p.as_section() {
+            out.section(&wasm_encoder::RawSection { id, data: &bytes[range] });
+        }
+    }
+    Ok(out.finish())
 }
 
 fn fid(func: u8) -> u32 {
@@ -63,9 +123,37 @@ fn fid(func: u8) -> u32 {
 
 /// Apply the plan through the public API, following the documented protocol: instruction-level
 /// probes first, function-level probes last on each function.
-pub fn instrument(bytes: &[u8], plan: &[Probe], api: u8) -> Result<Vec<u8>, PanicInfo> {
+pub fn instrument(bytes: &[u8], plan: &[Probe], api: u8, removed: Option<usize>) -> Result<Vec<u8>, PanicInfo> {
     catch(|| {
         let mut module = Module::parse(bytes, false).expect("harness: generated program parses");
+        let orig_api = api;
+        let remove = |module: &mut Module, at: usize| {
+            let f = fid(0);
+            if orig_api == 0 || orig_api == 3 {
+                let mut it = ModuleIterator::new(module, &vec![]);
+                loop {
+                    if let (Location::Module { func_idx, instr_idx }, _) = it.curr_loc() {
+                        if *func_idx == f && instr_idx == at {
+                            break;
+                        }
+                    }
+                    if it.next().is_none() {
+                        panic!("harness: iterator never reached function {} instruction {}", f, at);
+                    }
+                }
+                it.empty_block_alt();
+            } else {
+                let mut fm = module.functions.get_fn_modifier(FunctionID(f)).expect("harness: local function");
+                fm.empty_block_alt_at(Location::Module { func_idx: FunctionID(f), instr_idx: at });
+                fm.finish_instr();
+            }
+        };
+        // the removal comes first through the strict modifier path and the finishing iterator path,
+        // otherwise after the instruction-level probes (function-level probes stay last)
+        let removal_first = orig_api >= 2;
+        if let (Some(at), true) = (removed, removal_first) {
+            remove(&mut module, at);
+        }
         // api 0 / 1: module iterator / function modifier, function-level probes issued last (the usage the
         // repository's tests show); api 2: function modifier, strictly in plan order (it is finished after
         // every probe, so a function-level mode does not stay active)
@@ -82,7 +170,13 @@ pub fn instrument(bytes: &[u8], plan: &[Probe], api: u8) -> Result<Vec<u8>, Pani
         if !strict {
             ordered.extend(plan.iter().filter(|p| matches!(p.mode, Mode::FuncEntry | Mode::FuncExit)));
         }
+        let mut removal_pending = if removal_first { None } else { removed };
         for p in ordered {
+            if matches!(p.mode, Mode::FuncEntry | Mode::FuncExit) {
+                if let Some(at) = removal_pending.take() {
+                    remove(&mut module, at);
+                }
+            }
             let f = fid(p.func);
             let code = [Operator::I32Const { value: p.id }, Operator::Call { function_index: F_PROBE }];
             if api == 0 {
@@ -158,6 +252,9 @@ pub fn instrument(bytes: &[u8], plan: &[Probe], api: u8) -> Result<Vec<u8>, Pani
                 }
                 fm.finish_instr();
             }
+        }
+        if let Some(at) = removal_pending.take() {
+            remove(&mut module, at);
         }
         module.encode()
     })
@@ -400,9 +497,37 @@ pub fn judge(case: &Case, keep_modules: bool) -> Result<Judged, String> {
     if let Err(e) = validate(&em.bytes, features_core()) {
         return Err(format!("generated program invalid: {}", e));
     }
-    let orig = load(&em.bytes).map_err(|e| format!("load original: {:?}", e))?;
+    let full = load(&em.bytes).map_err(|e| format!("load original: {:?}", e))?;
+    // with a removed construct the reference is the program without it, probed at the corresponding places
+    let (ref_bytes, ref_plan): (Vec<u8>, Vec<Probe>) = match case.removed {
+        None => (em.bytes.clone(), case.plan.clone()),
+        Some(at) => {
+            let end = full.funcs[0].end_of.get(at).copied().unwrap_or(usize::MAX);
+            if end == usize::MAX {
+                return Err("harness: removed index is not an opener".into());
+            }
+            let cut = cut_main(&em.bytes, at, end)?;
+            validate(&cut, features_core()).map_err(|e| format!("harness: program without the removed construct invalid: {}", e))?;
+            let len = end - at + 1;
+            let mut pl = vec![];
+            for p in case.plan.iter() {
+                let mut q = p.clone();
+                if p.func == 0 && !matches!(p.mode, Mode::FuncEntry | Mode::FuncExit) {
+                    if p.at >= at && p.at <= end {
+                        return Err("harness: probe inside the removed construct".into());
+                    }
+                    if p.at > end {
+                        q.at -= len;
+                    }
+                }
+                pl.push(q);
+            }
+            (cut, pl)
+        }
+    };
+    let orig = load(&ref_bytes).map_err(|e| format!("load original: {:?}", e))?;
     let by_id: HashMap<i32, &Probe> = case.plan.iter().map(|p| (p.id, p)).collect();
-    let inst_bytes = match instrument(&em.bytes, &case.plan, case.api) {
+    let inst_bytes = match instrument(&em.bytes, &case.plan, case.api, case.removed) {
         Ok(b) => b,
         Err(p) => {
             if p.msg.starts_with("harness:") {
@@ -420,7 +545,7 @@ pub fn judge(case: &Case, keep_modules: bool) -> Result<Judged, String> {
             None => e.clone(),
         };
         let masked: String = msg.chars().map(|c| if c.is_ascii_digit() { '#' } else { c }).take(50).collect();
-        let mut descs: Vec<String> = case.plan.iter().map(|p| format!("{}@{}", p.mode.name(), site_desc(&orig, &em.roles, p))).collect();
+        let mut descs: Vec<String> = case.plan.iter().map(|p| format!("{}@{}", p.mode.name(), site_desc(&full, &em.roles, p))).collect();
         descs.sort();
         j.clauses.push(Clause { mode: None, sig: format!("invalid-instrumented-module {} [{}]", masked, descs.join(", ")), detail: e });
         return Ok(j);
@@ -428,11 +553,16 @@ pub fn judge(case: &Case, keep_modules: bool) -> Result<Judged, String> {
     let inst = load(&inst_bytes).map_err(|e| format!("load instrumented: {:?}", e))?;
     for (a, b) in INPUTS.iter() {
         let args = [Val::I32(*a), Val::I32(*b)];
-        let mon = Monitor::new(&orig, &case.plan);
+        let mon = Monitor::new(&orig, &ref_plan);
         let mut cb = |e: &Event, log: &mut Vec<LogEntry>| mon.on(e, log);
         let mut i1 = Interp::new(&orig, FUEL);
         i1.events = Some(&mut cb);
-        let r1 = i1.run_export("main", &args).map_err(|e| format!("interpreter (original): {:?}", e))?;
+        let r1 = match i1.run_export("main", &args) {
+            Ok(r) => r,
+            // without the removed construct the program need not terminate any more: not a reference
+            Err(InterpError::Fuel) if case.removed.is_some() => continue,
+            Err(e) => return Err(format!("interpreter (original): {:?}", e)),
+        };
         let i2 = Interp::new(&inst, FUEL);
         let r2 = match i2.run_export("main", &args) {
             Ok(r) => r,
@@ -512,9 +642,17 @@ pub fn judge(case: &Case, keep_modules: bool) -> Result<Judged, String> {
                         } else {
                             "extra"
                         };
+                        // (the marker goes behind the target kinds, in front of ` in-loop`)
+                        let mut site = site_desc(&full, &em.roles, p);
+                        if case.removed.is_some() {
+                            site = match site.strip_suffix(" in-loop") {
+                                Some(head) => format!("{} beside-removed-construct in-loop", head),
+                                None => format!("{} beside-removed-construct", site),
+                            };
+                        }
                         j.clauses.push(Clause {
                             mode: Some(p.mode),
-                            sig: format!("event {} {} {}", p.mode.name(), site_desc(&orig, &em.roles, p), dir),
+                            sig: format!("event {} {} {}", p.mode.name(), site, dir),
                             detail: format!("input ({},{}) gap {} probe {}: expected {} firings, instrumented module fired {}", a, b, gi, id, ne, na),
                         });
                     } else {
@@ -525,12 +663,15 @@ pub fn judge(case: &Case, keep_modules: bool) -> Result<Judged, String> {
         }
     }
     if keep_modules {
-        j.modules = Some((em.bytes, inst_bytes));
+        j.modules = Some((ref_bytes, inst_bytes));
     }
     Ok(j)
 }
 
 fn plan_modes(plan: &[Probe]) -> String {
+    plan_modes_inner(plan)
+}
+fn plan_modes_inner(plan: &[Probe]) -> String {
     let mut v: Vec<&str> = plan.iter().map(|p| p.mode.name()).collect();
     v.sort();
     v.dedup();
@@ -657,6 +798,9 @@ pub struct Family {
     /// applicable site of main, injected after it and, separately, before it; only the family's own
     /// modes are judged (the companion's events belong to its own property)
     pub companions: Vec<Mode>,
+    /// every single-probe plan (probe in main) additionally with every void block / loop of main that does
+    /// not contain the probe REMOVED through an empty block alternate (`Case::removed`)
+    pub removals: bool,
 }
 
 fn g(max_nodes: usize, max_depth: usize, leaves: &[Leaf], blocks: bool, loops: bool, ifs: bool, else_arms: bool, conds: &[Cond], results: u8) -> Grammar {
@@ -756,9 +900,43 @@ fn run_families(run: &mut Run, fams: &[Family], judged_modes: &[Mode], judge_beh
                         }
                     }
                 }
+                let mut removal_cases: Vec<(Vec<Probe>, usize)> = vec![];
+                if fam.removals {
+                    let em = emit(prog);
+                    if let Ok(full) = load(&em.bytes) {
+                        let f0 = &full.funcs[0];
+                        let singles: Vec<Probe> = all_plans.iter().filter(|(p, a)| p.len() == 1 && a.is_none()).map(|(p, _)| p[0].clone()).collect();
+                        for (at, r) in em.roles[0].iter().enumerate() {
+                            if !matches!(r, Role::Block | Role::Loop) {
+                                continue;
+                            }
+                            let end = f0.end_of[at];
+                            // the program without the construct must be a program
+                            match cut_main(&em.bytes, at, end) {
+                                Ok(cut) if validate(&cut, features_core()).is_ok() => {}
+                                _ => continue,
+                            }
+                            for sp in singles.iter() {
+                                let func_level = matches!(sp.mode, Mode::FuncEntry | Mode::FuncExit);
+                                if sp.func == 0 && !func_level && sp.at >= at && sp.at <= end {
+                                    continue;
+                                }
+                                removal_cases.push((vec![sp.clone()], at));
+                            }
+                        }
+                    }
+                }
+                for (k, (plan, at)) in removal_cases.into_iter().enumerate() {
+                    let case = Case { program: prog.clone(), plan, api: [0u8, 1, 2, 3][(pi + k) % 4], removed: Some(at) };
+                    let r = match catch(|| judge(&case, false)) {
+                        Ok(r) => r,
+                        Err(p) => Err(format!("harness panic: {} at {}:{}", p.msg, p.file, p.line)),
+                    };
+                    v.push((case, r));
+                }
                 for (k, (plan, forced_api)) in all_plans.into_iter().enumerate() {
                     let api = forced_api.unwrap_or([0u8, 1, 3][(pi + k) % 3]);
-                    let case = Case { program: prog.clone(), plan, api };
+                    let case = Case { program: prog.clone(), plan, api, removed: None };
                     let keep = tier == Tier::Thorough || (pi + k) % 97 == 0;
                     let r = match catch(|| judge(&case, keep)) {
                         Ok(r) => r,
@@ -782,6 +960,9 @@ fn run_families(run: &mut Run, fams: &[Family], judged_modes: &[Mode], judge_beh
                         let em = emit(&case.program);
                         let mut class: Vec<String> = case.plan.iter().map(|p| format!("{}@{}", p.mode.name(), if matches!(p.mode, Mode::FuncEntry | Mode::FuncExit) { "fn".to_string() } else { em.roles[p.func as usize].get(p.at).map(|r| r.name()).unwrap_or("?").to_string() })).collect();
                         class.sort();
+                        if case.removed.is_some() {
+                            class.push("removed-construct".into());
+                        }
                         run.add_class(fam.name, &class.join("+"));
                         for c in jd.clauses {
                             let relevant = match c.mode {
@@ -832,13 +1013,13 @@ pub fn check(id: &'static str, tier: Tier) -> i32 {
             let mut fams = vec![];
             for results in 0..3u8 {
                 let gr = g(if results == 0 { n } else { n - 1 }, 2, &[Mark, Br, BrIf, Ret, Unr, Call, GSet, Store, Div, RetCall, Throw], true, true, true, true, if tier == Tier::Quick { &[Cond::A, Cond::Ctr] } else { CONDS }, results);
-                fams.push(Family { name: ["results=[]", "results=[i32]", "results=[i32,i64]"][results as usize], programs: programs(&gr, &callees), modes: all.clone(), probes: 1, same_site_twice: true, with_ordinary: false, companions: vec![] });
+                fams.push(Family { name: ["results=[]", "results=[i32]", "results=[i32,i64]"][results as usize], programs: programs(&gr, &callees), modes: all.clone(), probes: 1, same_site_twice: true, with_ordinary: false, companions: vec![], removals: false });
             }
             // two probes on small programs (one node more in the thorough tier)
             let gr = g(tier.pick(2, 3), 2, &[Mark, Br, BrIf, Ret, Call, GSet], true, true, true, true, if tier == Tier::Quick { CONDS } else { &[Cond::A, Cond::Ctr] }, 0);
-            fams.push(Family { name: "two probes, small programs", programs: programs(&gr, &callees), modes: all.clone(), probes: 2, same_site_twice: true, with_ordinary: false, companions: vec![] });
+            fams.push(Family { name: "two probes, small programs", programs: programs(&gr, &callees), modes: all.clone(), probes: 2, same_site_twice: true, with_ordinary: false, companions: vec![], removals: false });
             let gr = g(tier.pick(2, 3), 2, &[Mark, BrTable], true, false, true, false, &[Cond::A], 0);
-            fams.push(Family { name: "br_table programs", programs: programs(&gr, &callees), modes: all, probes: tier.pick(1, 2), same_site_twice: false, with_ordinary: false, companions: vec![] });
+            fams.push(Family { name: "br_table programs", programs: programs(&gr, &callees), modes: all, probes: tier.pick(1, 2), same_site_twice: false, with_ordinary: false, companions: vec![], removals: false });
             (fams, vec![Mode::Before, Mode::After], true)
         }
         "C17" => {
@@ -846,66 +1027,74 @@ pub fn check(id: &'static str, tier: Tier) -> i32 {
             let mut fams = vec![];
             for results in 0..3u8 {
                 let gr = g(if results == 0 { tier.pick(3, 4) } else { tier.pick(2, 3) }, 3, &[Mark, Br, BrIf, Ret, Unr, Throw, Call, RetCall, Div], true, results == 0, true, true, if tier == Tier::Quick { &[Cond::A, Cond::Ctr] } else { CONDS }, results);
-                fams.push(Family { name: ["exits results=[]", "exits results=[i32]", "exits results=[i32,i64]"][results as usize], programs: programs(&gr, &callees), modes: modes.clone(), probes: tier.pick(2, 4), same_site_twice: true, with_ordinary: false, companions: vec![] });
+                fams.push(Family { name: ["exits results=[]", "exits results=[i32]", "exits results=[i32,i64]"][results as usize], programs: programs(&gr, &callees), modes: modes.clone(), probes: tier.pick(2, 4), same_site_twice: true, with_ordinary: false, companions: vec![], removals: false });
             }
             // one node more, over the exit-relevant statements only (no loops, one condition): reaches
             // `if c {transfer} else {exit}` and exits behind dead code, which the lowering has to treat
             // per arm (seeded change C17b)
             let gr = g(tier.pick(4, 5), 3, &[Mark, Br, Ret, Unr, RetCall, RetCallInd, Throw], true, false, true, true, &[Cond::A], 0);
-            fams.push(Family { name: "exits in both arms and behind dead code", programs: programs(&gr, &callees), modes: modes.clone(), probes: tier.pick(1, 2), same_site_twice: false, with_ordinary: false, companions: vec![] });
+            fams.push(Family { name: "exits in both arms and behind dead code", programs: programs(&gr, &callees), modes: modes.clone(), probes: tier.pick(1, 2), same_site_twice: false, with_ordinary: false, companions: vec![], removals: false });
             let gr = g(tier.pick(3, 4), 3, &[Mark, Br, Ret, Unr], true, false, true, true, &[Cond::A], 0);
-            fams.push(Family { name: "entry/exit probes with an ordinary probe on the same function", programs: programs(&gr, &callees), modes: modes.clone(), probes: 2, same_site_twice: false, with_ordinary: true, companions: vec![] });
+            fams.push(Family { name: "entry/exit probes with an ordinary probe on the same function", programs: programs(&gr, &callees), modes: modes.clone(), probes: 2, same_site_twice: false, with_ordinary: true, companions: vec![], removals: false });
             let gr = g(tier.pick(3, 4), 3, &[Mark, Br, Ret], true, true, true, true, &[Cond::A], 0);
-            fams.push(Family { name: "entry/exit probe with a probe of another special mode on the same function", programs: programs(&gr, &callees), modes: modes.clone(), probes: 1, same_site_twice: false, with_ordinary: false, companions: vec![Mode::BlockEntry, Mode::BlockExit, Mode::SemanticAfter] });
+            fams.push(Family { name: "entry/exit probe with a probe of another special mode on the same function", programs: programs(&gr, &callees), modes: modes.clone(), probes: 1, same_site_twice: false, with_ordinary: false, companions: vec![Mode::BlockEntry, Mode::BlockExit, Mode::SemanticAfter], removals: false });
             let gr = g(tier.pick(2, 3), 3, &[Mark, BrTable, Ret], true, false, true, false, &[Cond::A, Cond::B], 0);
-            fams.push(Family { name: "br_table to function label", programs: programs(&gr, &callees), modes: modes.clone(), probes: 2, same_site_twice: false, with_ordinary: false, companions: vec![] });
+            fams.push(Family { name: "br_table to function label", programs: programs(&gr, &callees), modes: modes.clone(), probes: 2, same_site_twice: false, with_ordinary: false, companions: vec![], removals: false });
+            let gr = g(tier.pick(3, 4), 3, &[Mark, Br, Ret], true, true, true, true, &[Cond::A], 0);
+            fams.push(Family { name: "entry/exit probe beside a construct removed through an empty block alternate", programs: programs(&gr, &callees), modes: modes.clone(), probes: 1, same_site_twice: false, with_ordinary: false, companions: vec![], removals: true });
             (fams, modes, true)
         }
         "C18" => {
             let modes = vec![Mode::BlockEntry];
             let gr = if tier == Tier::Quick { g(4, 3, &[Mark, Br, BrIf], true, true, true, true, &[Cond::A, Cond::Ctr], 0) } else { g(5, 3, &[Mark, Br, BrIf, Ret], true, true, true, true, CONDS, 0) };
-            let mut fams = vec![Family { name: "nested blocks/loops/ifs", programs: programs(&gr, &callees), modes: modes.clone(), probes: tier.pick(2, 3), same_site_twice: true, with_ordinary: false, companions: vec![] }];
+            let mut fams = vec![Family { name: "nested blocks/loops/ifs", programs: programs(&gr, &callees), modes: modes.clone(), probes: tier.pick(2, 3), same_site_twice: true, with_ordinary: false, companions: vec![], removals: false }];
             let gr = g(tier.pick(3, 4), 3, &[Mark, BrIf], true, true, true, true, &[Cond::A, Cond::Ctr], 0);
-            fams.push(Family { name: "block-entry probes with an ordinary probe on the same function", programs: programs(&gr, &callees), modes: modes.clone(), probes: 2, same_site_twice: false, with_ordinary: true, companions: vec![] });
+            fams.push(Family { name: "block-entry probes with an ordinary probe on the same function", programs: programs(&gr, &callees), modes: modes.clone(), probes: 2, same_site_twice: false, with_ordinary: true, companions: vec![], removals: false });
             let gr = g(tier.pick(3, 4), 3, &[Mark, Br, BrIf], true, true, true, true, &[Cond::A], 0);
-            fams.push(Family { name: "block-entry probe with a probe of another special mode on the same function", programs: programs(&gr, &callees), modes: modes.clone(), probes: 1, same_site_twice: false, with_ordinary: false, companions: vec![Mode::BlockExit, Mode::SemanticAfter, Mode::FuncEntry, Mode::FuncExit] });
+            fams.push(Family { name: "block-entry probe with a probe of another special mode on the same function", programs: programs(&gr, &callees), modes: modes.clone(), probes: 1, same_site_twice: false, with_ordinary: false, companions: vec![Mode::BlockExit, Mode::SemanticAfter, Mode::FuncEntry, Mode::FuncExit], removals: false });
+            let gr = g(tier.pick(3, 4), 3, &[Mark, Br, BrIf], true, true, true, true, &[Cond::A], 0);
+            fams.push(Family { name: "block-entry probe beside a construct removed through an empty block alternate", programs: programs(&gr, &callees), modes: modes.clone(), probes: 1, same_site_twice: false, with_ordinary: false, companions: vec![], removals: true });
             (fams, modes, true)
         }
         "C19" => {
             let modes = vec![Mode::BlockExit];
             let gr = if tier == Tier::Quick { g(4, 3, &[Mark, Br, BrIf], true, true, true, true, &[Cond::A, Cond::Ctr], 0) } else { g(5, 3, &[Mark, Br, BrIf, Ret], true, true, true, true, CONDS, 0) };
-            let mut fams = vec![Family { name: "nested constructs inside if-arms", programs: programs(&gr, &callees), modes: modes.clone(), probes: tier.pick(2, 3), same_site_twice: true, with_ordinary: false, companions: vec![] }];
+            let mut fams = vec![Family { name: "nested constructs inside if-arms", programs: programs(&gr, &callees), modes: modes.clone(), probes: tier.pick(2, 3), same_site_twice: true, with_ordinary: false, companions: vec![], removals: false }];
             let gr = g(tier.pick(3, 4), 3, &[Mark, BrIf], true, true, true, true, &[Cond::A, Cond::Ctr], 0);
-            fams.push(Family { name: "block-exit probes with an ordinary probe on the same function", programs: programs(&gr, &callees), modes: modes.clone(), probes: 2, same_site_twice: false, with_ordinary: true, companions: vec![] });
+            fams.push(Family { name: "block-exit probes with an ordinary probe on the same function", programs: programs(&gr, &callees), modes: modes.clone(), probes: 2, same_site_twice: false, with_ordinary: true, companions: vec![], removals: false });
             let gr = g(tier.pick(3, 4), 3, &[Mark, Br, BrIf], true, true, true, true, &[Cond::A], 0);
-            fams.push(Family { name: "block-exit probe with a probe of another special mode on the same function", programs: programs(&gr, &callees), modes: modes.clone(), probes: 1, same_site_twice: false, with_ordinary: false, companions: vec![Mode::BlockEntry, Mode::SemanticAfter, Mode::FuncEntry, Mode::FuncExit] });
+            fams.push(Family { name: "block-exit probe with a probe of another special mode on the same function", programs: programs(&gr, &callees), modes: modes.clone(), probes: 1, same_site_twice: false, with_ordinary: false, companions: vec![Mode::BlockEntry, Mode::SemanticAfter, Mode::FuncEntry, Mode::FuncExit], removals: false });
+            let gr = g(tier.pick(3, 4), 3, &[Mark, Br, BrIf], true, true, true, true, &[Cond::A], 0);
+            fams.push(Family { name: "block-exit probe beside a construct removed through an empty block alternate", programs: programs(&gr, &callees), modes: modes.clone(), probes: 1, same_site_twice: false, with_ordinary: false, companions: vec![], removals: true });
             (fams, modes, true)
         }
         "C20" => {
             let modes = vec![Mode::SemanticAfter];
             let mut fams = vec![];
             let gr = if tier == Tier::Quick { g(4, 3, &[Mark, Br, BrIf], true, true, true, true, &[Cond::A, Cond::Ctr], 0) } else { g(5, 3, &[Mark, Br, BrIf, Ret], true, true, true, true, CONDS, 0) };
-            fams.push(Family { name: "branches inside loops and blocks", programs: programs(&gr, &callees), modes: modes.clone(), probes: tier.pick(2, 3), same_site_twice: true, with_ordinary: false, companions: vec![] });
+            fams.push(Family { name: "branches inside loops and blocks", programs: programs(&gr, &callees), modes: modes.clone(), probes: tier.pick(2, 3), same_site_twice: true, with_ordinary: false, companions: vec![], removals: false });
             let gr = g(tier.pick(3, 4), 3, &[Mark, BrTable, BrIf], true, true, true, false, &[Cond::A, Cond::Ctr], 0);
-            fams.push(Family { name: "br_table across depths and the function label", programs: programs(&gr, &callees), modes: modes.clone(), probes: tier.pick(2, 3), same_site_twice: false, with_ordinary: false, companions: vec![] });
+            fams.push(Family { name: "br_table across depths and the function label", programs: programs(&gr, &callees), modes: modes.clone(), probes: tier.pick(2, 3), same_site_twice: false, with_ordinary: false, companions: vec![], removals: false });
             let gr = g(tier.pick(3, 4), 3, &[Mark, Br, BrIf], true, false, true, true, &[Cond::A], 0);
-            fams.push(Family { name: "semantic-after probes with an ordinary probe on the same function", programs: programs(&gr, &callees), modes: modes.clone(), probes: 2, same_site_twice: false, with_ordinary: true, companions: vec![] });
+            fams.push(Family { name: "semantic-after probes with an ordinary probe on the same function", programs: programs(&gr, &callees), modes: modes.clone(), probes: 2, same_site_twice: false, with_ordinary: true, companions: vec![], removals: false });
             let gr = g(tier.pick(3, 4), 3, &[Mark, Br, BrIf], true, false, true, true, &[Cond::A], 0);
-            fams.push(Family { name: "semantic-after probe with a probe of another special mode on the same function", programs: programs(&gr, &callees), modes: modes.clone(), probes: 1, same_site_twice: false, with_ordinary: false, companions: vec![Mode::BlockEntry, Mode::BlockExit, Mode::FuncEntry, Mode::FuncExit] });
+            fams.push(Family { name: "semantic-after probe with a probe of another special mode on the same function", programs: programs(&gr, &callees), modes: modes.clone(), probes: 1, same_site_twice: false, with_ordinary: false, companions: vec![Mode::BlockEntry, Mode::BlockExit, Mode::FuncEntry, Mode::FuncExit], removals: false });
             // two probed branches in sibling constructs (the first target closes before the second branch)
             let gr = g(5, 2, &[Mark, Br], true, false, true, false, &[Cond::A], 0);
-            fams.push(Family { name: "branches in sibling blocks", programs: programs(&gr, &callees).into_iter().filter(|p| p.main.len() == 2 && p.main.iter().all(|s| matches!(s, Stmt::Block(_)))).collect(), modes: modes.clone(), probes: 2, same_site_twice: false, with_ordinary: false, companions: vec![] });
+            fams.push(Family { name: "branches in sibling blocks", programs: programs(&gr, &callees).into_iter().filter(|p| p.main.len() == 2 && p.main.iter().all(|s| matches!(s, Stmt::Block(_)))).collect(), modes: modes.clone(), probes: 2, same_site_twice: false, with_ordinary: false, companions: vec![], removals: false });
             for results in 1..3u8 {
                 let gr = g(3, 2, &[Mark, Br, BrIf], true, false, true, true, &[Cond::A, Cond::B], results);
-                fams.push(Family { name: ["", "results=[i32]", "results=[i32,i64]"][results as usize], programs: programs(&gr, &callees), modes: modes.clone(), probes: 2, same_site_twice: false, with_ordinary: false, companions: vec![] });
+                fams.push(Family { name: ["", "results=[i32]", "results=[i32,i64]"][results as usize], programs: programs(&gr, &callees), modes: modes.clone(), probes: 2, same_site_twice: false, with_ordinary: false, companions: vec![], removals: false });
             }
+            let gr = g(tier.pick(3, 4), 3, &[Mark, Br, BrIf], true, true, true, true, &[Cond::A], 0);
+            fams.push(Family { name: "semantic-after probe beside a construct removed through an empty block alternate", programs: programs(&gr, &callees), modes: modes.clone(), probes: 1, same_site_twice: false, with_ordinary: false, companions: vec![], removals: true });
             (fams, modes, true)
         }
         _ => unreachable!(),
     };
     let nprog: usize = fams.iter().map(|f| f.programs.len()).sum();
     run.rule = format!(
-        "programs = ALL function bodies of the statement grammar (mark, nop, block, counted loop, if/else, br, br_if, br_table, return, unreachable, throw, call, return_call, global.set, store, trapping div; conditions over param a, param b, innermost loop counter) within the node/nesting bounds of each family ({} programs in {} families), smallest first; plans = ALL sets of <= p probes (`i32.const id; call $probe`) over the applicable (instruction, mode) pairs of the family's modes, applied through the module iterator and the function modifier alternately; every (program, plan) is instrumented by the real library, validated, and executed on all 9 inputs (a,b) in {{0,1,2}}^2 by the reference interpreter: results/trap, globals, memory and the mark sequence must equal the original's, and in every gap between marks the multiset of probe firings must equal what the monitor (DESIGN.md appendix A) derives from the original's execution. Non-trivial class = multiset of (mode, instruction role) of the plan.",
+        "programs = ALL function bodies of the statement grammar (mark, nop, block, counted loop, if/else, br, br_if, br_table, return, unreachable, throw, call, return_call, global.set, store, trapping div; conditions over param a, param b, innermost loop counter) within the node/nesting bounds of each family ({} programs in {} families), smallest first; plans = ALL sets of <= p probes (`i32.const id; call $probe`) over the applicable (instruction, mode) pairs of the family's modes, applied through the module iterator and the function modifier alternately; every (program, plan) is instrumented by the real library, validated, and executed on all 9 inputs (a,b) in {{0,1,2}}^2 by the reference interpreter: results/trap, globals, memory and the mark sequence must equal the original's, and in every gap between marks the multiset of probe firings must equal what the monitor (DESIGN.md appendix A) derives from the original's execution. Families 'beside a construct removed': one probe plus one void block / loop of main that does not contain it removed through an empty block alternate (every such pair, four call orders / API kinds rotated); the reference is then the program WITHOUT that construct (cut out of the body bytes, wirm not involved), probed at the corresponding place. Non-trivial class = multiset of (mode, instruction role) of the plan.",
         nprog,
         fams.len()
     );
